@@ -139,20 +139,20 @@ Qed.
 Lemma sound_sv_shape : forall n t o, is_sv t = true -> sound n t o ->
   o = User \/ exists l, o = Val (VSteps l).
 Proof.
-  intros n t o Ht H. destruct o as [v| |f]; simpl in H; auto; [|contradiction].
+  intros n t o Ht H. destruct o as [v| |f]; simpl in H; [|auto|contradiction].
   right. destruct t; try discriminate; destruct v; simpl in H; try discriminate; eauto.
 Qed.
 
 Lemma sound_matrix_shape : forall n o, sound n TMatrix o ->
   o = User \/ (exists v, o = Val v /\ v <> VStr).
 Proof.
-  intros n o H. destruct o as [v| |f]; simpl in H; auto; [|contradiction].
+  intros n o H. destruct o as [v| |f]; simpl in H; [|auto|contradiction].
   right. exists v. split; auto. destruct v; simpl in H; congruence.
 Qed.
 
 Lemma sound_scalar_ne : forall n o, sound n TScalar o -> o = User \/ ne_of n o = true.
 Proof.
-  intros n o H. destruct o as [v| |f]; simpl in *; auto; [|contradiction].
+  intros n o H. destruct o as [v| |f]; simpl in *; [|auto|contradiction].
   right. apply scalar_all_nonempty; auto.
 Qed.
 
@@ -226,5 +226,791 @@ Lemma eval_call : forall w n id f args,
   end.
 Proof.
   intros. simpl. destruct (flookup f ftab); [|reflexivity]. f_equal.
-  induction args as [|a t IH]; [reflexivity|]. rewrite IH. simpl. f_equal. destruct a; reflexivity.
 Qed.
+
+(* ------------------------------------------------------------------ the Call case *)
+Definition good_res (n : nat) (ty : vtype) (a : expr) (r : argres) : Prop :=
+  match ty with
+  | TString => a = EStr /\ r = RStr true
+  | TMatrix => is_matrixish a = true /\
+               ((exists err, r = RMat err) \/ (exists o, r = RSub o /\ sound n TMatrix o))
+  | TScalar | TVector => is_matrixish a = false /\ exists o, r = RVal o /\ sound n ty o
+  | TNone => False
+  end.
+
+Definition good_args (sg : fsig) (n : nat) (args : list expr) (rs : list argres) : Prop :=
+  List.length rs = List.length args /\
+  forall j a r, nth_error args j = Some a -> nth_error rs j = Some r ->
+    exists ty, arg_type sg j = Some ty /\ good_res n ty a r.
+
+Lemma nth_error_mapi : forall A B (f : nat -> A -> B) l i j,
+  nth_error (mapi f i l) j = option_map (f (i + j)%nat) (nth_error l j).
+Proof.
+  induction l as [|x l IH]; intros i j; simpl.
+  - destruct j; reflexivity.
+  - destruct j; simpl.
+    + rewrite Nat.add_0_r. reflexivity.
+    + rewrite IH. replace (S i + j)%nat with (i + S j)%nat by lia. reflexivity.
+Qed.
+
+Lemma mapi_length : forall A B (f : nat -> A -> B) l i, List.length (mapi f i l) = List.length l.
+Proof. induction l; simpl; intros; auto. Qed.
+
+Lemma first_matrix_none : forall l i, first_matrix l i = None ->
+  forall j a, nth_error l j = Some a -> is_matrixish a = false.
+Proof.
+  induction l as [|x l IH]; intros i H j a Hn; [destruct j; discriminate|].
+  simpl in H. destruct (is_matrixish x) eqn:E; [discriminate|].
+  destruct j; simpl in Hn; [inversion Hn; subst; auto|eauto].
+Qed.
+
+Lemma first_matrix_some : forall l i k, first_matrix l i = Some k ->
+  exists j a, k = (i + j)%nat /\ nth_error l j = Some a /\ is_matrixish a = true.
+Proof.
+  induction l as [|x l IH]; intros i k H; [discriminate|].
+  simpl in H. destruct (is_matrixish x) eqn:E.
+  - inversion H; subst. exists 0%nat, x. rewrite Nat.add_0_r. auto.
+  - apply IH in H. destruct H as (j & a & -> & Hn & Hm). exists (S j), a. split; [lia|auto].
+Qed.
+
+Lemma fp_args_ok : forall sg hm l i,
+  (forall j a ne, nth_error l j = Some (a, ne) ->
+     match arg_type sg (i + j) with
+     | Some TScalar => ne = true
+     | Some TString => is_strlit a = true
+     | Some TMatrix => hm = true
+     | _ => True
+     end) ->
+  fp_args sg hm i l = None.
+Proof.
+  induction l as [|[a ne] l IH]; intros i H; [reflexivity|].
+  simpl. pose proof (H 0%nat a ne eq_refl) as H0. rewrite Nat.add_0_r in H0.
+  assert (Ht : fp_args sg hm (S i) l = None).
+  { apply IH. intros j a' ne' Hn. specialize (H (S j) a' ne' Hn).
+    replace (S i + j)%nat with (i + S j)%nat by lia. exact H. }
+  destruct (arg_type sg i) as [[]|]; auto; try (rewrite H0; auto); subst hm; auto.
+Qed.
+
+Lemma nth_error_combine : forall A B (l : list A) (l' : list B) j,
+  nth_error (combine l l') j =
+  match nth_error l j, nth_error l' j with Some a, Some b => Some (a, b) | _, _ => None end.
+Proof.
+  induction l as [|x l IH]; intros l' j; simpl.
+  - destruct j; reflexivity.
+  - destruct l' as [|y l']; simpl.
+    + destruct j; simpl; [reflexivity|]. destruct (nth_error l j); reflexivity.
+    + destruct j; simpl; [reflexivity|]. apply IH.
+Qed.
+
+Lemma count_matrix_unique : forall l i j,
+  count_matrix l = 1%nat -> nth_error l i = Some TMatrix -> nth_error l j = Some TMatrix -> i = j.
+Proof.
+  unfold count_matrix.
+  induction l as [|x l IH]; intros i j Hc Hi Hj; [destruct i; discriminate|].
+  simpl in Hc. destruct (vtype_eqb x TMatrix) eqn:E.
+  - simpl in Hc. assert (Hz : List.length (filter (fun t => vtype_eqb t TMatrix) l) = 0%nat) by lia.
+    assert (Hno : forall k, nth_error l k <> Some TMatrix).
+    { intros k Hk. apply nth_error_In in Hk.
+      assert (In TMatrix (filter (fun t => vtype_eqb t TMatrix) l)) by (apply filter_In; auto).
+      destruct (filter _ l); [contradiction|discriminate]. }
+    destruct i, j; simpl in *; auto; exfalso; eapply Hno; eauto.
+  - destruct i; simpl in Hi; [inversion Hi; subst; discriminate|].
+    destruct j; simpl in Hj; [inversion Hj; subst; discriminate|].
+    f_equal. eauto.
+Qed.
+
+Lemma count_matrix_pos : forall l i, nth_error l i = Some TMatrix -> (1 <= count_matrix l)%nat.
+Proof.
+  unfold count_matrix. intros l i H. apply nth_error_In in H.
+  assert (In TMatrix (filter (fun t => vtype_eqb t TMatrix) l)) by (apply filter_In; auto).
+  destruct (filter _ l); [contradiction|simpl; lia].
+Qed.
+
+Lemma arg_type_in : forall sg i ty, arg_type sg i = Some ty -> In ty (fs_args sg).
+Proof.
+  unfold arg_type. intros sg i ty H.
+  destruct (i <? _)%nat; [eapply nth_error_In; eauto|].
+  destruct (fs_var sg =? 0)%Z; [discriminate|eapply nth_error_In; eauto].
+Qed.
+
+Lemma arity_required : forall sg k, arity_ok sg k = true -> (required_args sg <= k)%nat.
+Proof.
+  unfold arity_ok, required_args. intros sg k H.
+  destruct (fs_var sg =? 0)%Z.
+  - apply Z.eqb_eq in H. lia.
+  - apply andb_prop in H. destruct H as [H _]. apply Z.leb_le in H. lia.
+Qed.
+
+Lemma as_matrix_benign : forall n t o, t <> TString -> t <> TNone -> sound n t o ->
+  as_matrix o = o /\ benign o.
+Proof.
+  intros n t o H1 H2 H. destruct o as [v| |f]; simpl in *; [|split; [auto|left; auto]|contradiction].
+  destruct v; simpl; (split; [|right; eauto]); auto.
+  destruct t; simpl in H; congruence.
+Qed.
+
+Lemma as_matrix_M : forall n o, sound n TMatrix o -> as_matrix o = o /\ benign o.
+Proof. intros. eapply as_matrix_benign; eauto; discriminate. Qed.
+Lemma as_matrix_S : forall n o, sound n TScalar o -> as_matrix o = o /\ benign o.
+Proof. intros. eapply as_matrix_benign; eauto; discriminate. Qed.
+Lemma as_matrix_V : forall n o, sound n TVector o -> as_matrix o = o /\ benign o.
+Proof. intros. eapply as_matrix_benign; eauto; discriminate. Qed.
+
+Lemma call_eval_sound : forall w n id f sg args rs,
+  flookup f ftab = Some sg ->
+  arity_ok sg (List.length args) = true ->
+  (fs_impl sg || special_fn f) = true ->
+  (if String.eqb f "info" then match nth_error args 1 with Some (EVec _ _) | None => true | _ => false end else true) = true ->
+  good_args sg n args rs ->
+  sound n (fs_ret sg) (call_eval w n id f sg args rs).
+Proof.
+  intros w n id f sg args rs Hl Har Himpl Hinfo [Hlen Hgood].
+  pose proof (flookup_wf _ _ Hl) as Hwf. unfold sig_wf in Hwf.
+  repeat (apply andb_prop in Hwf; let H := fresh "Hw" in destruct Hwf as [Hwf H]).
+  rename Hwf into Hret.
+  assert (Hres : sound n (fs_ret sg) (if vtype_eqb (fs_ret sg) TScalar then scalar_steps n else out_steps w id n)).
+  { destruct (fs_ret sg); try discriminate; simpl vtype_eqb; cbv iota.
+    - apply scalar_steps_sound. - apply out_steps_sound. }
+  (* types of the declared parameters are never TNone *)
+  assert (Hnn : forall j ty, arg_type sg j = Some ty -> ty <> TNone).
+  { intros j ty Hj ->. apply arg_type_in in Hj.
+    apply negb_true_iff in Hw. rewrite <- not_true_iff_false in Hw. apply Hw.
+    apply existsb_exists. exists TNone. auto. }
+  assert (Hgen : sound n (fs_ret sg)
+    (let m := first_matrix args 0 in
+     match (match m with
+           | Some i => match nth_error rs i with Some (RSub o) => first_bad [as_matrix o] | _ => None end
+           | None => None end) with
+    | Some bad => bad
+    | None =>
+      if negb (fs_impl sg) && negb (special_fn f) then Internal FNilImpl
+      else if w_err w id then User
+      else
+        match m with
+        | None =>
+            let os := map (fun r => match r with RStr _ => Val (VSteps []) | _ => as_matrix (res_outcome n r) end) rs in
+            match first_bad os with
+            | Some bad => bad
+            | None =>
+                match footprint f sg false (combine args (map (ne_of n) os)) with
+                | Some ft => Internal ft
+                | None => if vtype_eqb (fs_ret sg) TScalar then scalar_steps n else out_steps w id n
+                end
+            end
+        | Some i =>
+            let os := mapi (fun j r => if (j =? i)%nat then Val VRange else as_matrix (res_outcome n r)) 0 rs in
+            match first_bad os with
+            | Some bad => bad
+            | None =>
+                if match nth_error rs i with Some (RMat true) => true | _ => false end then User
+                else if negb (forallb (fun b => b) (mapi (fun j o => (j =? i)%nat || ne_of n o) 0 os))
+                then Internal FIndex
+                else match footprint f sg true (combine args (map (fun _ => true) os)) with
+                     | Some ft => Internal ft
+                     | None => if vtype_eqb (fs_ret sg) TScalar then scalar_steps n else out_steps w id n
+                     end
+            end
+        end
+    end)).
+  { cbv zeta.
+    destruct (first_matrix args 0) as [i|] eqn:Hm.
+    - (* a matrix argument at position i *)
+      apply first_matrix_some in Hm. destruct Hm as (j0 & ai & Hi & Hai & Hmi). simpl in Hi. subst j0.
+      assert (Hri : exists ri, nth_error rs i = Some ri).
+      { destruct (nth_error rs i) eqn:E; eauto. apply nth_error_None in E.
+        assert (i < List.length args)%nat by (apply nth_error_Some; congruence). lia. }
+      destruct Hri as [ri Hri].
+      destruct (Hgood _ _ _ Hai Hri) as (tyi & Htyi & Hgi).
+      assert (tyi = TMatrix).
+      { destruct tyi; simpl in Hgi; auto.
+        - destruct Hgi as [Hx _]; congruence.
+        - destruct Hgi as [Hx _]; congruence.
+        - destruct Hgi as [-> _]; discriminate.
+        - contradiction. }
+      subst tyi. simpl in Hgi. destruct Hgi as [_ Hgi].
+      (* the signature has exactly this one matrix parameter, the others are scalars *)
+      assert (Hin : In TMatrix (fs_args sg)) by (eapply arg_type_in; eauto).
+      destruct (In_nth_error _ _ Hin) as [k Hk].
+      pose proof (count_matrix_pos _ _ Hk) as Hpos.
+      destruct (count_matrix (fs_args sg)) as [|[|c]] eqn:Hc; [lia| |discriminate].
+      apply andb_prop in Hw1. destruct Hw1 as [Hv0 Hall].
+      assert (Hty : forall j ty, arg_type sg j = Some ty -> j <> i -> ty = TScalar).
+      { intros j ty Hj Hne. unfold arg_type in Hj, Htyi. rewrite Hv0 in Hj, Htyi.
+        destruct (j <? _)%nat; [|discriminate]. destruct (i <? _)%nat; [|discriminate].
+        rewrite forallb_forall in Hall. pose proof (Hall _ (nth_error_In _ _ Hj)) as Ht.
+        apply orb_prop in Ht. destruct Ht as [Ht|Ht]; apply vtype_eqb_eq in Ht; auto.
+        subst ty. exfalso. apply Hne. eapply count_matrix_unique; eauto. }
+      (* the first check: a subquery argument *)
+      assert (Hfirst : match nth_error rs i with Some (RSub o) => first_bad [as_matrix o] | _ => None end = None \/
+                       match nth_error rs i with Some (RSub o) => first_bad [as_matrix o] | _ => None end = Some User).
+      { rewrite Hri. destruct Hgi as [[err ->]|[o [-> Ho]]]; auto.
+        destruct (as_matrix_M _ _ Ho) as [-> Hb].
+        apply first_bad_benign. intros x [<-|[]]. exact Hb. }
+      destruct Hfirst as [->| ->]; [|exact I].
+      assert (Hni : (negb (fs_impl sg) && negb (special_fn f)) = false).
+      { destruct (fs_impl sg), (special_fn f); simpl in *; auto; discriminate. }
+      rewrite Hni. destruct (w_err w id); [exact I|].
+      set (os := mapi (fun j r => if (j =? i)%nat then Val VRange else as_matrix (res_outcome n r)) 0 rs).
+      (* every other argument is a scalar: a value or a user error *)
+      assert (Hos : forall j o, nth_error os j = Some o ->
+                (j = i /\ o = Val VRange) \/
+                (j <> i /\ benign o /\ (forall v, o = Val v -> ne_of n o = true))).
+      { intros j o Hj. unfold os in Hj. rewrite nth_error_mapi in Hj. simpl in Hj.
+        destruct (nth_error rs j) as [r|] eqn:Hr; [|discriminate]. simpl in Hj. inversion Hj; subst o; clear Hj.
+        destruct (j =? i)%nat eqn:E; [apply Nat.eqb_eq in E; auto|]. apply Nat.eqb_neq in E. right. split; auto.
+        assert (Ha : exists a, nth_error args j = Some a).
+        { destruct (nth_error args j) eqn:E2; eauto. apply nth_error_None in E2.
+          assert (j < List.length rs)%nat by (apply nth_error_Some; congruence). lia. }
+        destruct Ha as [a Ha]. destruct (Hgood _ _ _ Ha Hr) as (ty & Hty1 & Hg).
+        rewrite (Hty _ _ Hty1 E) in Hg. simpl in Hg. destruct Hg as [_ [o [-> Ho]]]. simpl res_outcome.
+        destruct (as_matrix_S _ _ Ho) as [-> Hb].
+        split; auto. intros v ->. destruct (sound_scalar_ne _ _ Ho); [discriminate|auto]. }
+      destruct (first_bad_benign os) as [Hfb|Hfb].
+      { intros o Ho. apply In_nth_error in Ho. destruct Ho as [j Hj].
+        destruct (Hos _ _ Hj) as [[_ ->]|[_ [Hb _]]]; [right; eauto|auto]. }
+      2:{ rewrite Hfb. exact I. }
+      rewrite Hfb.
+      destruct (match nth_error rs i with Some (RMat true) => true | _ => false end); [exact I|].
+      assert (Hne : forallb (fun b => b) (mapi (fun j o => (j =? i)%nat || ne_of n o) 0 os) = true).
+      { apply forallb_forall. intros x Hx. apply In_nth_error in Hx. destruct Hx as [j Hj].
+        rewrite nth_error_mapi in Hj. simpl in Hj. destruct (nth_error os j) as [o|] eqn:Ho; [|discriminate].
+        simpl in Hj. inversion Hj; subst x.
+        destruct (Hos _ _ Ho) as [[-> _]|[Hji [_ Hv]]]; [rewrite Nat.eqb_refl; auto|].
+        destruct (first_bad_none _ Hfb o (nth_error_In _ _ Ho)) as [v Hv']. rewrite (Hv _ Hv'). apply orb_true_r. }
+      rewrite Hne. simpl negb. cbv iota.
+      assert (Hfp : footprint f sg true (combine args (map (fun _ => true) os)) = None).
+      { unfold footprint.
+        assert (Hlc : List.length (combine args (map (fun _ : outcome => true) os)) = List.length args).
+        { rewrite combine_length, map_length. unfold os. rewrite mapi_length. lia. }
+        rewrite Hlc. pose proof (arity_required _ _ Har) as Hreq.
+        replace (List.length args <? required_args sg)%nat with false by (symmetry; apply Nat.ltb_ge; lia).
+        replace (String.eqb f "info" && _) with false.
+        2:{ symmetry. destruct (String.eqb f "info") eqn:Ei; [try rewrite Ei in Hinfo|reflexivity]. cbn [andb].
+            rewrite nth_error_combine. destruct (nth_error args 1) as [[]|]; try discriminate; auto.
+            destruct (nth_error (map _ os) 1); reflexivity. }
+        apply fp_args_ok. intros j a ne Hj. simpl.
+        rewrite nth_error_combine in Hj. destruct (nth_error args j) as [a'|] eqn:Ha; [|discriminate].
+        destruct (nth_error (map _ os) j) as [b|] eqn:Hb; [|discriminate]. inversion Hj; subst a' b. clear Hj.
+        rewrite nth_error_map in Hb. destruct (nth_error os j) eqn:Ho; [|discriminate]. inversion Hb; subst ne.
+        assert (Hr : exists r, nth_error rs j = Some r).
+        { destruct (nth_error rs j) eqn:E2; eauto. apply nth_error_None in E2.
+          assert (j < List.length args)%nat by (apply nth_error_Some; congruence). lia. }
+        destruct Hr as [r Hr]. destruct (Hgood _ _ _ Ha Hr) as (ty & Hty1 & Hg). rewrite Hty1.
+        destruct ty; auto. simpl in Hg. destruct Hg as [-> _]. reflexivity. }
+      rewrite Hfp. exact Hres.
+    - (* no matrix argument: rangeEval over all arguments *)
+      assert (Hni : (negb (fs_impl sg) && negb (special_fn f)) = false).
+      { destruct (fs_impl sg), (special_fn f); simpl in *; auto; discriminate. }
+      rewrite Hni. destruct (w_err w id); [exact I|].
+      set (g := fun r => match r with RStr _ => Val (VSteps []) | _ => as_matrix (res_outcome n r) end).
+      set (os := map g rs).
+      assert (Hos : forall j a r, nth_error args j = Some a -> nth_error rs j = Some r ->
+                exists ty, arg_type sg j = Some ty /\ ty <> TMatrix /\ benign (g r) /\
+                  (ty = TString -> a = EStr) /\
+                  (ty = TScalar -> forall v, g r = Val v -> ne_of n (g r) = true)).
+      { intros j a r Ha Hr. destruct (Hgood _ _ _ Ha Hr) as (ty & Hty1 & Hg). exists ty. split; auto.
+        pose proof (first_matrix_none _ _ Hm _ _ Ha) as Hnm.
+        destruct ty; simpl in Hg.
+        - destruct Hg as [_ [o [-> Ho]]]. unfold g. simpl res_outcome.
+          destruct (as_matrix_S _ _ Ho) as [-> Hb].
+          repeat split; auto; try discriminate. intros _ v ->. destruct (sound_scalar_ne _ _ Ho); [discriminate|auto].
+        - destruct Hg as [_ [o [-> Ho]]]. unfold g. simpl res_outcome.
+          destruct (as_matrix_V _ _ Ho) as [-> Hb].
+          repeat split; auto; discriminate.
+        - destruct Hg as [Hx _]. congruence.
+        - destruct Hg as [-> ->]. unfold g. repeat split; auto; try discriminate. right; eauto.
+        - contradiction. }
+      destruct (first_bad_benign os) as [Hfb|Hfb].
+      { intros o Ho. unfold os in Ho. apply in_map_iff in Ho. destruct Ho as [r [<- Hr]].
+        apply In_nth_error in Hr. destruct Hr as [j Hj].
+        assert (Ha : exists a, nth_error args j = Some a).
+        { destruct (nth_error args j) eqn:E2; eauto. apply nth_error_None in E2.
+          assert (j < List.length rs)%nat by (apply nth_error_Some; congruence). lia. }
+        destruct Ha as [a Ha]. destruct (Hos _ _ _ Ha Hj) as (ty & _ & _ & Hb & _). exact Hb. }
+      2:{ rewrite Hfb. exact I. }
+      rewrite Hfb.
+      assert (Hfp : footprint f sg false (combine args (map (ne_of n) os)) = None).
+      { unfold footprint.
+        assert (Hlc : List.length (combine args (map (ne_of n) os)) = List.length args).
+        { rewrite combine_length, map_length. unfold os. rewrite map_length. lia. }
+        rewrite Hlc. pose proof (arity_required _ _ Har) as Hreq.
+        replace (List.length args <? required_args sg)%nat with false by (symmetry; apply Nat.ltb_ge; lia).
+        replace (String.eqb f "info" && _) with false.
+        2:{ symmetry. destruct (String.eqb f "info") eqn:Ei; [try rewrite Ei in Hinfo|reflexivity]. cbn [andb].
+            rewrite nth_error_combine. destruct (nth_error args 1) as [[]|]; try discriminate; auto.
+            destruct (nth_error (map _ os) 1); reflexivity. }
+        apply fp_args_ok. intros j a ne Hj. simpl.
+        rewrite nth_error_combine in Hj. destruct (nth_error args j) as [a'|] eqn:Ha; [|discriminate].
+        destruct (nth_error (map _ os) j) as [b|] eqn:Hb; [|discriminate]. inversion Hj; subst a' b. clear Hj.
+        rewrite nth_error_map in Hb. destruct (nth_error os j) as [o|] eqn:Ho; [|discriminate]. inversion Hb; subst ne.
+        unfold os in Ho. rewrite nth_error_map in Ho. destruct (nth_error rs j) as [r|] eqn:Hr; [|discriminate].
+        inversion Ho; subst o.
+        destruct (Hos _ _ _ Ha Hr) as (ty & Hty1 & Hnm & _ & Hstr & Hsc). rewrite Hty1.
+        destruct ty; auto; try (exfalso; apply Hnm; reflexivity).
+        + assert (Hin : In (g r) os) by (unfold os; apply in_map; eapply nth_error_In; eauto).
+          destruct (first_bad_none _ Hfb _ Hin) as [v Hv]. eapply Hsc; eauto.
+        + rewrite Hstr; auto. }
+      rewrite Hfp. exact Hres. }
+  unfold call_eval. fold (first_matrix args 0).
+  destruct (ts_fn f) eqn:Hts; [|exact Hgen].
+  destruct (ts_fn_sig _ Hts) as (sg' & Hl' & Ha' & Hv' & Hr'). rewrite Hl in Hl'. inversion Hl'; subst sg'.
+  destruct args as [|a args]; [unfold arity_ok in Har; rewrite Ha', Hv' in Har; discriminate|].
+  destruct a; try exact Hgen.
+  rewrite Hr'. destruct (w_err w id0); [exact I|apply out_steps_sound].
+Qed.
+
+(* ------------------------------------------------------------------ soundness of the evaluator on well-typed preprocessed trees *)
+Lemma wtp_type : forall e, wtp e = true -> type_of e <> TNone.
+Proof.
+  induction e using expr_ind'; intros Hw; simpl; try discriminate.
+  - simpl in Hw. auto.
+  - simpl in Hw. apply andb_prop in Hw. destruct Hw as [_ Hw]. destruct (type_of e); discriminate.
+  - destruct (vtype_eqb (type_of e1) TScalar && vtype_eqb (type_of e2) TScalar); discriminate.
+  - rewrite wtp_call in Hw. destruct (flookup f ftab) as [sg|] eqn:E; [|discriminate].
+    pose proof (flookup_wf _ _ E) as Hwf. unfold sig_wf in Hwf.
+    repeat (apply andb_prop in Hwf; destruct Hwf as [Hwf _]). destruct (fs_ret sg); discriminate.
+  - simpl in Hw. apply andb_prop in Hw. destruct Hw as [_ Hw]. destruct (type_of e); discriminate.
+Qed.
+
+Lemma sound_zero : forall e, wtp e = true -> type_of e <> TString -> sound 0 (type_of e) (Val (VSteps [])).
+Proof. intros. simpl. apply has_type_zero; auto using wtp_type. Qed.
+
+Lemma ctx_ok_sv : forall n e, is_sv (type_of e) = true -> ctx_ok n e.
+Proof.
+  intros n e H. split.
+  - intros _ Hs. rewrite Hs in H. discriminate.
+  - intros _. destruct (direct_mat e) eqn:E; auto. apply direct_mat_type in E. rewrite E in H. discriminate.
+Qed.
+
+Lemma eval_zero : forall w e, eval w 0 e = Val (VSteps []).
+Proof. destruct e; reflexivity. Qed.
+
+Lemma arg_res_val : forall w n a, is_matrixish a = false -> type_of a <> TString ->
+  arg_res w n a = RVal (eval w n a).
+Proof.
+  intros w n a Hm Ht.
+  destruct a; try discriminate; unfold arg_res;
+    (match goal with |- context[vtype_eqb ?t TString] => destruct (vtype_eqb t TString) eqn:E end;
+     [apply vtype_eqb_eq in E; contradiction|reflexivity]).
+Qed.
+
+Lemma eval_sound : forall w e, wtp e = true -> forall n, ctx_ok n e -> sound n (type_of e) (eval w n e).
+Proof.
+  intros w. induction e using expr_ind'; intros Hw n Hctx;
+    (destruct n as [|n]; [rewrite eval_zero; apply sound_zero; [exact Hw|apply Hctx; reflexivity]|]).
+  - (* ENum *) apply scalar_steps_sound.
+  - (* EStr *) reflexivity.
+  - (* EVec *) simpl. destruct (w_err w id); [exact I|apply out_steps_sound].
+  - (* EMat *) destruct Hctx as [_ Hc]. simpl.
+    destruct n as [|n]; [|specialize (Hc ltac:(lia)); discriminate].
+    simpl. destruct (w_err w id); reflexivity.
+  - (* ESub *) simpl in *. apply andb_prop in Hw. destruct Hw as [Hw Ht]. apply vtype_eqb_eq in Ht.
+    assert (Hs : sound (w_n w id) TVector (eval w (w_n w id) e)).
+    { rewrite <- Ht. apply IHe; auto. apply ctx_ok_sv. rewrite Ht. reflexivity. }
+    destruct (eval w (w_n w id) e) as [v| |ft]; simpl in *; auto. destruct v; try discriminate; reflexivity.
+  - (* EParen *) simpl in *. apply IHe; auto.
+  - (* EUn *) simpl in *. apply andb_prop in Hw. destruct Hw as [Hw Ht].
+    assert (Hs : sound (S n) (type_of e) (eval w (S n) e)) by (apply IHe; auto; apply ctx_ok_sv; auto).
+    destruct (sound_sv_shape _ _ _ Ht Hs) as [->|[l Hl]]; [exact I|].
+    rewrite Hl in *. simpl. destruct (w_err w id); [exact I|exact Hs].
+  - (* EBin *) simpl in Hw. repeat (apply andb_prop in Hw; let H := fresh "Ht" in destruct Hw as [Hw H]).
+    assert (Hs1 : sound (S n) (type_of e1) (eval w (S n) e1)) by (apply IHe1; auto; apply ctx_ok_sv; auto).
+    assert (Hs2 : sound (S n) (type_of e2) (eval w (S n) e2)) by (apply IHe2; auto; apply ctx_ok_sv; auto).
+    change (eval w (S n) (EBin id op rb vm e1 e2))
+      with (bin_eval w (S n) id (type_of e1) (type_of e2) (eval w (S n) e1) (eval w (S n) e2)).
+    simpl type_of.
+    destruct (sound_sv_shape _ _ _ Ht0 Hs1) as [E1|[l1 E1]]; destruct (sound_sv_shape _ _ _ Ht Hs2) as [E2|[l2 E2]];
+      rewrite E1, E2 in *;
+      destruct (type_of e1) eqn:T1; try discriminate; destruct (type_of e2) eqn:T2; try discriminate;
+      unfold bin_eval; simpl first_bad; cbv iota; try exact I; simpl vtype_eqb; cbn [andb orb negb];
+      try apply out_steps_sound.
+    + pose proof (scalar_all_nonempty _ _ Hs1) as N1. pose proof (scalar_all_nonempty _ _ Hs2) as N2.
+      unfold ne_of. rewrite N1, N2. simpl. apply scalar_steps_sound.
+    + pose proof (scalar_all_nonempty _ _ Hs1) as N1. unfold ne_of. rewrite N1. simpl. apply out_steps_sound.
+    + pose proof (scalar_all_nonempty _ _ Hs2) as N2. unfold ne_of. rewrite N2. simpl. apply out_steps_sound.
+  - (* EAgg *) simpl in Hw. apply andb_prop in Hw. destruct Hw as [Hw Hp]. apply andb_prop in Hw. destruct Hw as [Hw Ht].
+    apply vtype_eqb_eq in Ht.
+    assert (Hs : sound (S n) (type_of e) (eval w (S n) e)) by (apply IHe; auto; apply ctx_ok_sv; rewrite Ht; reflexivity).
+    rewrite Ht in Hs.
+    destruct (as_matrix_V _ _ Hs) as [Ham Hb].
+    assert (Hbody : sound (S n) TVector
+              (match as_matrix (eval w (S n) e) with
+               | Val _ => if w_err w id then User else out_steps w id (S n)
+               | o => o end)).
+    { rewrite Ham. destruct Hb as [->|[v ->]]; [exact I|]. destruct (w_err w id); [exact I|apply out_steps_sound]. }
+    destruct op; simpl.
+    + destruct p; [discriminate|]. exact Hbody.
+    + destruct p as [q|]; [|discriminate]. apply andb_prop in Hp. destruct Hp as [Hq Htq].
+      apply vtype_eqb_eq in Htq. unfold optP in H.
+      assert (Hsq : sound (S n) (type_of q) (eval w (S n) q)) by (apply H; auto; apply ctx_ok_sv; rewrite Htq; reflexivity).
+      destruct (eval w (S n) q) as [v| |ft]; simpl in *; [exact Hbody|exact I|contradiction].
+    + destruct p as [[]|]; try discriminate.
+      destruct (w_err w id); [exact I|]. rewrite Ham.
+      destruct Hb as [->|[v ->]]; [exact I|apply out_steps_sound].
+  - (* ECall *) rewrite eval_call. rewrite wtp_call in Hw. simpl type_of.
+    destruct (flookup f ftab) as [sg|] eqn:El; [|discriminate].
+    repeat (apply andb_prop in Hw; let Hx := fresh "Hc" in destruct Hw as [Hw Hx]).
+    apply call_eval_sound; auto.
+    split; [apply map_length|].
+    intros j a r Ha Hr. rewrite nth_error_map, Ha in Hr. simpl in Hr. inversion Hr; subst r; clear Hr.
+    destruct (wtp_args_nth _ _ _ Hc _ _ Ha) as (Hwa & ty & Hty & Hta & Hcan). simpl in Hty.
+    exists ty. split; auto.
+    rewrite Forall_forall in H. pose proof (H _ (nth_error_In _ _ Ha) Hwa) as IHa.
+    destruct ty; simpl in *.
+    + assert (is_matrixish a = false) by (destruct a; auto; discriminate).
+      split; auto. exists (eval w (S n) a). split.
+      * apply arg_res_val; auto. rewrite Hta. discriminate.
+      * rewrite <- Hta. apply IHa. apply ctx_ok_sv. rewrite Hta. reflexivity.
+    + assert (is_matrixish a = false) by (destruct a; auto; discriminate).
+      split; auto. exists (eval w (S n) a). split.
+      * apply arg_res_val; auto. rewrite Hta. discriminate.
+      * rewrite <- Hta. apply IHa. apply ctx_ok_sv. rewrite Hta. reflexivity.
+    + split; auto. destruct a; simpl in Hcan; try discriminate.
+      * left. eexists. reflexivity.
+      * right. eexists. split; [reflexivity|]. rewrite <- Hta. apply IHa. split; [discriminate|reflexivity].
+    + destruct a; simpl in Hcan; try discriminate. auto.
+    + exfalso. eapply wtp_type; eauto.
+  - (* EStepInv *) simpl in Hw. apply andb_prop in Hw. destruct Hw as [Hw Ht].
+    assert (Hs : sound 1 (type_of e) (eval w 1 e)) by (apply IHe; auto; apply ctx_ok_sv; auto).
+    assert (Hm : is_matrixish e = false) by (destruct e; simpl in *; auto; discriminate).
+    simpl eval. simpl type_of. change (eval w 1 e) with (eval w 1 e).
+    destruct (sound_sv_shape _ _ _ Ht Hs) as [E|[l E]].
+    + replace (match e with ENum => _ | _ => _ end) with (eval w 1 e) by (destruct e; reflexivity).
+      rewrite E. exact I.
+    + replace (match e with ENum => _ | _ => _ end) with (eval w 1 e) by (destruct e; reflexivity).
+      rewrite E in *. rewrite Hm. simpl.
+      destruct (type_of e); try discriminate; simpl in *.
+      * apply andb_prop in Hs. destruct Hs as [Hl Hk]. apply Nat.eqb_eq in Hl.
+        rewrite repeat_length, Nat.eqb_refl. simpl.
+        apply (forallb_repeat _ is_kf _ (S n)).
+        destruct l as [|x [|]]; simpl in *; try discriminate. apply andb_prop in Hk. apply Hk.
+      * rewrite repeat_length. rewrite Nat.eqb_refl. reflexivity.
+Qed.
+
+(* ------------------------------------------------------------------ checkAST + PreprocessExpr establish wtp *)
+Definition check_args (f : string) (sg : fsig) :=
+  fix go (l : list expr) (i : nat) : bool :=
+    match l with
+    | [] => true
+    | a :: t => (if is_info_sel f i a then true else check a) && arg_type_ok sg i a && go t (S i)
+    end.
+
+Lemma check_call : forall id f args,
+  check (ECall id f args) =
+  match flookup f ftab with
+  | None => false
+  | Some sg => arity_ok sg (List.length args) && info_ok f args && check_args f sg args 0
+  end.
+Proof. intros. simpl. destruct (flookup f ftab); reflexivity. Qed.
+
+Lemma check_args_nth : forall f sg l i, check_args f sg l i = true ->
+  forall j a, nth_error l j = Some a ->
+  (is_info_sel f (i + j) a = true \/ check a = true) /\ arg_type_ok sg (i + j) a = true.
+Proof.
+  induction l as [|x l IH]; intros i H j a Hn; [destruct j; discriminate|].
+  simpl in H. apply andb_prop in H. destruct H as [H H3]. apply andb_prop in H. destruct H as [H1 H2].
+  destruct j; simpl in Hn.
+  - inversion Hn; subst. rewrite Nat.add_0_r. split; auto.
+    destruct (is_info_sel f i a); auto.
+  - replace (i + S j)%nat with (S i + j)%nat by lia. eauto.
+Qed.
+
+Lemma wtp_args_intro : forall sg l i,
+  (forall j a, nth_error l j = Some a ->
+     wtp a = true /\ exists ty, arg_type sg (i + j) = Some ty /\ type_of a = ty /\ canon_arg ty a = true) ->
+  wtp_args sg l i = true.
+Proof.
+  induction l as [|x l IH]; intros i H; [reflexivity|].
+  simpl. destruct (H 0%nat x eq_refl) as (Hw & ty & Hty & Ht & Hc). rewrite Nat.add_0_r in Hty.
+  rewrite Hw, Hty, <- Ht, vtype_eqb_refl, Ht, Hc. simpl.
+  apply IH. intros j a Hn. specialize (H (S j) a Hn). replace (S i + j)%nat with (i + S j)%nat by lia. exact H.
+Qed.
+
+Lemma arity_arg_type : forall f sg k j, sig_wf f sg = true -> arity_ok sg k = true -> (j < k)%nat ->
+  exists ty, arg_type sg j = Some ty.
+Proof.
+  intros f sg k j Hwf Har Hj. unfold sig_wf in Hwf.
+  repeat (apply andb_prop in Hwf; let H := fresh "Hw" in destruct Hwf as [Hwf H]).
+  unfold arity_ok in Har. unfold arg_type.
+  destruct (j <? List.length (fs_args sg))%nat eqn:E.
+  - apply Nat.ltb_lt in E. destruct (nth_error (fs_args sg) j) eqn:E2; eauto.
+    apply nth_error_None in E2. lia.
+  - apply Nat.ltb_ge in E. destruct (fs_var sg =? 0)%Z.
+    + apply Z.eqb_eq in Har. lia.
+    + apply negb_true_iff, Nat.eqb_neq in Hw2.
+      destruct (nth_error (fs_args sg) (List.length (fs_args sg) - 1)) eqn:E2; eauto.
+      apply nth_error_None in E2. lia.
+Qed.
+
+Lemma canon_sv : forall t a, is_sv t = true -> canon_arg t a = true.
+Proof. destruct t; simpl; intros; auto; discriminate. Qed.
+
+Lemma info_plain_call : forall id f args,
+  info_plain (ECall id f args) =
+  (if String.eqb f "info" then match nth_error args 1 with Some (EVec _ vs) => negb (vs_at vs) | _ => true end else true) &&
+  forallb info_plain args.
+Proof. reflexivity. Qed.
+
+Definition pre_good (e : expr) (strip : bool) : Prop :=
+  let r := pre strip e in
+  wtp (fst r) = true /\ type_of (fst r) = type_of e /\
+  (snd (snd r) = true -> is_sv (type_of e) = true) /\
+  (strip = true -> canon_arg (type_of e) (fst r) = true).
+
+Lemma wrap_good : forall e strip, pre_good e strip ->
+  let r := pre strip e in
+  wtp (wrap_if (snd (snd r)) (fst r)) = true /\ type_of (wrap_if (snd (snd r)) (fst r)) = type_of e /\
+  (strip = true -> canon_arg (type_of e) (wrap_if (snd (snd r)) (fst r)) = true).
+Proof.
+  intros e strip (Hw & Ht & Hs & Hc). cbv zeta.
+  destruct (snd (snd (pre strip e))) eqn:E; simpl.
+  - rewrite Hw, Ht, (Hs eq_refl). repeat split; auto. intros _. apply canon_sv. auto.
+  - auto.
+Qed.
+
+Lemma pre_ok : forall e, check e = true -> info_plain e = true -> forall strip, pre_good e strip.
+Proof.
+  induction e using expr_ind'; intros Hc Hi strip; unfold pre_good; cbv zeta.
+  - simpl. auto.
+  - simpl. auto.
+  - simpl. repeat split; auto.
+  - simpl. repeat split; auto; discriminate.
+  - (* ESub *) simpl in Hc, Hi. apply andb_prop in Hc. destruct Hc as [Hc Ht].
+    destruct (wrap_good e false (IHe Hc Hi false)) as (Hw & Hty & _). cbv zeta in Hw, Hty.
+    destruct (IHe Hc Hi false) as (Hw' & Hty' & _ & _).
+    simpl. repeat split; auto; try discriminate.
+    destruct (fst (snd (pre false e))); simpl; rewrite Hw', Hty'; rewrite Ht; auto.
+    apply vtype_eqb_eq in Ht. rewrite Ht. reflexivity.
+  - (* EParen *) simpl in Hc, Hi. destruct strip; simpl.
+    + apply (IHe Hc Hi true).
+    + destruct (IHe Hc Hi false) as (Hw & Ht & Hs & _). simpl. repeat split; auto. discriminate.
+  - (* EUn *) simpl in Hc, Hi. apply andb_prop in Hc. destruct Hc as [Hc Ht].
+    destruct (IHe Hc Hi false) as (Hw & Hty & Hs & _). simpl. rewrite Hw, Hty, Ht. repeat split; auto.
+    intros _. apply canon_sv; auto.
+  - (* EBin *) simpl in Hc, Hi. apply andb_prop in Hi. destruct Hi as [Hi1 Hi2].
+    apply andb_prop in Hc. destruct Hc as [Hc Hb]. apply andb_prop in Hc. destruct Hc as [Hc1 Hc2].
+    assert (Hsv : is_sv (type_of e1) = true /\ is_sv (type_of e2) = true).
+    { unfold check_bin in Hb. repeat (apply andb_prop in Hb; let H := fresh "Hb" in destruct Hb as [Hb H]). auto. }
+    destruct Hsv as [Hsv1 Hsv2].
+    destruct (IHe1 Hc1 Hi1 false) as (Hw1 & Ht1 & _ & _). destruct (IHe2 Hc2 Hi2 false) as (Hw2 & Ht2 & _ & _).
+    destruct (wrap_good e1 false (IHe1 Hc1 Hi1 false)) as (Hww1 & Htw1 & _).
+    destruct (wrap_good e2 false (IHe2 Hc2 Hi2 false)) as (Hww2 & Htw2 & _). cbv zeta in *.
+    assert (Hres : is_sv (type_of (EBin id op rb vm e1 e2)) = true).
+    { simpl. destruct (vtype_eqb (type_of e1) TScalar && vtype_eqb (type_of e2) TScalar); reflexivity. }
+    simpl pre.
+    destruct (fst (snd (pre false e1)) && fst (snd (pre false e2))); simpl fst; simpl snd.
+    + simpl wtp. simpl type_of. rewrite Hw1, Hw2, Ht1, Ht2, Hsv1, Hsv2. repeat split; auto.
+      intros _. apply canon_sv. exact Hres.
+    + simpl wtp. simpl type_of. rewrite Hww1, Hww2, Htw1, Htw2, Hsv1, Hsv2. repeat split; auto; try discriminate.
+      intros _. apply canon_sv. exact Hres.
+  - (* EAgg *) simpl in Hc, Hi. apply andb_prop in Hi. destruct Hi as [Hip Hie].
+    apply andb_prop in Hc. destruct Hc as [Hc Hp]. apply andb_prop in Hc. destruct Hc as [Hce Hte].
+    destruct (IHe Hce Hie true) as (Hw & Ht & _ & _).
+    destruct (wrap_good e true (IHe Hce Hie true)) as (Hww & Htw & _). cbv zeta in *.
+    simpl pre. destruct p as [q|].
+    + unfold optP in H.
+      assert (Hq : check q = true /\ (type_of q = TScalar /\ op = AParam \/ type_of q = TString /\ op = ACountValues)).
+      { destruct op; try discriminate; apply andb_prop in Hp; destruct Hp as [Hq Htq]; apply vtype_eqb_eq in Htq; auto. }
+      destruct Hq as [Hcq Hq].
+      destruct (H Hcq Hip true) as (Hwq & Htq & Hsq & Hcanq). specialize (Hcanq eq_refl).
+      destruct (wrap_good q true (H Hcq Hip true)) as (Hwwq & Htwq & Hcwq). cbv zeta in *. specialize (Hcwq eq_refl).
+      destruct (fst (snd (pre true e)) && fst (snd (pre true q))); simpl fst; simpl snd.
+      * simpl wtp. rewrite Hw, Ht, Hte. simpl type_of. repeat split; auto.
+        destruct Hq as [[Hq1 ->]|[Hq1 ->]]; simpl.
+        -- rewrite Hwq, Htq, Hq1. reflexivity.
+        -- rewrite Hq1 in Hcanq. simpl in Hcanq. destruct (fst (pre true q)); try discriminate. reflexivity.
+      * simpl wtp. rewrite Hww, Htw, Hte. simpl type_of. repeat split; auto; try discriminate.
+        destruct Hq as [[Hq1 ->]|[Hq1 ->]]; simpl.
+        -- rewrite Hwwq, Htwq, Hq1. reflexivity.
+        -- rewrite Hq1 in Hcwq. simpl in Hcwq.
+           destruct (wrap_if (snd (snd (pre true q))) (fst (pre true q))); try discriminate. reflexivity.
+    + simpl fst; simpl snd. simpl wtp. rewrite Hw, Ht, Hte. simpl type_of.
+      destruct op; try discriminate. repeat split; auto.
+  - (* ECall *) rewrite check_call in Hc. destruct (flookup f ftab) as [sg|] eqn:El; [|discriminate].
+    apply andb_prop in Hc. destruct Hc as [Hc Hca]. apply andb_prop in Hc. destruct Hc as [Har Hinfo].
+    pose proof (flookup_wf _ _ El) as Hwf.
+    assert (Hret : is_sv (fs_ret sg) = true).
+    { unfold sig_wf in Hwf. repeat (apply andb_prop in Hwf; destruct Hwf as [Hwf _]). exact Hwf. }
+    simpl pre. destruct (ctx_fn f) eqn:Ectx.
+    { destruct (ctx_fn_sig _ Ectx) as (sg' & El' & Hr'). rewrite El in El'. inversion El'; subst sg'.
+      simpl. rewrite El, Hr'. auto. }
+    rewrite info_plain_call in Hi. apply andb_prop in Hi. destruct Hi as [Hii Hia].
+    rewrite forallb_forall in Hia. rewrite Forall_forall in H.
+    (* facts about every preprocessed argument *)
+    assert (Hargs : forall j a, nth_error args j = Some a ->
+              let r := pre true a in
+              exists ty, arg_type sg j = Some ty /\ type_of a = ty /\
+                wtp (fst r) = true /\ type_of (fst r) = ty /\ canon_arg ty (fst r) = true /\
+                wtp (wrap_if (snd (snd r)) (fst r)) = true /\ type_of (wrap_if (snd (snd r)) (fst r)) = ty /\
+                canon_arg ty (wrap_if (snd (snd r)) (fst r)) = true /\
+                (is_info_sel f j a = true -> wrap_if (snd (snd r)) (fst r) = a)).
+    { intros j a Ha. cbv zeta.
+      destruct (check_args_nth _ _ _ _ Hca _ _ Ha) as [Hck Hto]. simpl in Hck, Hto.
+      assert (Hjl : (j < List.length args)%nat) by (apply nth_error_Some; congruence).
+      destruct (arity_arg_type _ _ _ _ Hwf Har Hjl) as [ty Hty].
+      unfold arg_type_ok in Hto. rewrite Hty in Hto. apply vtype_eqb_eq in Hto.
+      exists ty. split; auto. split; auto.
+      destruct Hck as [Hsel|Hck].
+      - (* the label-selector argument of info(): exempt from the check, never carries @ *)
+        unfold is_info_sel in Hsel. apply andb_prop in Hsel. destruct Hsel as [Hsel Hv].
+        apply andb_prop in Hsel. destruct Hsel as [Hf Hj1]. apply Nat.eqb_eq in Hj1. subst j.
+        destruct a; try discriminate. rewrite Hf, Ha in Hii. simpl in Hto. subst ty.
+        apply negb_true_iff in Hii. simpl. rewrite Hii. simpl. repeat split; auto.
+      - pose proof (H _ (nth_error_In _ _ Ha) Hck (Hia _ (nth_error_In _ _ Ha)) true) as Hg.
+        destruct Hg as (Hw & Ht & Hs & Hcan). specialize (Hcan eq_refl).
+        destruct (wrap_good a true (H _ (nth_error_In _ _ Ha) Hck (Hia _ (nth_error_In _ _ Ha)) true)) as (Hww & Htw & Hcw).
+        cbv zeta in *. specialize (Hcw eq_refl). rewrite Hto in *. repeat split; auto.
+        intros Hsel. unfold is_info_sel in Hsel. apply andb_prop in Hsel. destruct Hsel as [Hsel Hv].
+        apply andb_prop in Hsel. destruct Hsel as [Hf Hj1]. apply Nat.eqb_eq in Hj1. subst j.
+        destruct a; try discriminate. rewrite Hf, Ha in Hii. apply negb_true_iff in Hii. simpl. rewrite Hii. reflexivity. }
+    assert (Himpl : (fs_impl sg || special_fn f) = true).
+    { unfold sig_wf in Hwf. repeat (apply andb_prop in Hwf; let Hx := fresh "Hw" in destruct Hwf as [Hwf Hx]).
+      rewrite Ectx in Hw0. rewrite orb_false_r in Hw0. exact Hw0. }
+    (* both shapes of the rewritten argument list are well typed *)
+    assert (Hboth : forall h : expr * (bool * bool) -> expr,
+              (forall a, h (pre true a) = fst (pre true a) \/ h (pre true a) = wrap_if (snd (snd (pre true a))) (fst (pre true a))) ->
+              (forall a, nth_error args 1 = Some a -> is_info_sel f 1 a = true -> is_vec (h (pre true a)) = true) ->
+              wtp (ECall id f (map h (map (pre true) args))) = true).
+    { intros h Hh Hsel. rewrite wtp_call, El. rewrite !map_length, Har, Himpl. rewrite !andb_true_l.
+      replace (if String.eqb f "info" then _ else true) with true.
+      2:{ symmetry. destruct (String.eqb f "info") eqn:Ef; [|reflexivity].
+          rewrite !nth_error_map. destruct (nth_error args 1) as [a1|] eqn:E1; [|reflexivity]. simpl.
+          unfold info_ok in Hinfo. rewrite Ef in Hinfo.
+          assert (Hl1 : (1 <? List.length args)%nat = true).
+          { apply Nat.ltb_lt. apply nth_error_Some. congruence. }
+          rewrite Hl1, E1 in Hinfo. simpl in Hinfo.
+          assert (Hs1 : is_info_sel f 1 a1 = true).
+          { unfold is_info_sel. rewrite Ef. simpl. destruct a1; try discriminate. exact Hinfo. }
+          specialize (Hsel _ eq_refl Hs1). destruct (h (pre true a1)); try discriminate. reflexivity. }
+      apply wtp_args_intro. intros j a' Hn. simpl.
+      rewrite !nth_error_map in Hn. destruct (nth_error args j) as [a|] eqn:Ha; [|discriminate].
+      simpl in Hn. inversion Hn; subst a'; clear Hn.
+      destruct (Hargs _ _ Ha) as (ty & Hty & Hta & Hw & Ht & Hcan & Hww & Htw & Hcw & _).
+      destruct (Hh a) as [->| ->]; eauto 10. }
+    destruct (negb (at_unsafe f) && forallb (fun r => fst (snd r)) (map (pre true) args)
+              || String.eqb f "timestamp" && forallb (fun r => fst (snd r) && is_vec (fst r)) (map (pre true) args)).
+    + simpl fst; simpl snd.
+      split; [|simpl; rewrite El; repeat split; auto; intros _; apply canon_sv; auto].
+      apply (Hboth fst); [auto|].
+      intros a _ Hsel. unfold is_info_sel in Hsel. apply andb_prop in Hsel. destruct Hsel as [_ Hv].
+      destruct a; try discriminate. reflexivity.
+    + simpl fst; simpl snd.
+      split; [|simpl; rewrite El; repeat split; auto; try discriminate; intros _; apply canon_sv; auto].
+      apply (Hboth (fun r => wrap_if (snd (snd r)) (fst r))); [auto|].
+      intros a E1 Hsel.
+      destruct (Hargs _ _ E1) as (ty & _ & _ & _ & _ & _ & _ & _ & _ & Hself). rewrite (Hself Hsel).
+      unfold is_info_sel in Hsel. apply andb_prop in Hsel. destruct Hsel as [_ Hv].
+      destruct a; try discriminate. reflexivity.
+  - (* EStepInv *) discriminate.
+Qed.
+
+(* ------------------------------------------------------------------ whole queries *)
+Lemma check_no_stepinv : forall e, check e = true -> has_stepinv e = false.
+Proof.
+  induction e using expr_ind'; intros Hc; simpl; auto.
+  - simpl in Hc. apply andb_prop in Hc. destruct Hc. auto.
+  - simpl in Hc. apply andb_prop in Hc. destruct Hc. auto.
+  - simpl in Hc. apply andb_prop in Hc. destruct Hc as [Hc _]. apply andb_prop in Hc. destruct Hc as [H1 H2].
+    rewrite IHe1, IHe2; auto.
+  - simpl in Hc. apply andb_prop in Hc. destruct Hc as [Hc Hp]. apply andb_prop in Hc. destruct Hc as [Hc _].
+    rewrite IHe; auto. rewrite orb_false_r. destruct p as [q|]; auto. unfold optP in H.
+    destruct op; try discriminate; apply andb_prop in Hp; destruct Hp; auto.
+  - rewrite check_call in Hc. destruct (flookup f ftab) as [sg|]; [|discriminate].
+    apply andb_prop in Hc. destruct Hc as [_ Hca].
+    destruct (existsb has_stepinv args) eqn:E; auto.
+    apply existsb_exists in E. destruct E as [a [Hin Ha]].
+    destruct (In_nth_error _ _ Hin) as [j Hj].
+    destruct (check_args_nth _ _ _ _ Hca _ _ Hj) as [[Hsel|Hck] _].
+    + unfold is_info_sel in Hsel. apply andb_prop in Hsel. destruct Hsel as [_ Hv].
+      destruct a; try discriminate.
+    + rewrite Forall_forall in H. rewrite (H _ Hin Hck) in Ha. discriminate.
+Qed.
+
+Definition expected (k : qkind) (t : vtype) : vtype :=
+  match k with QInstant => t | QRange _ => TMatrix end.
+
+(* the statement of the soundness theorem, for one query *)
+Definition sound_query (w : world) (k : qkind) (e : expr) (t : vtype) : Prop :=
+  match run_query w k e with
+  | QInternal _ => False                                   (* never an internal failure *)
+  | QRejected => match k with QRange _ => is_sv t = false | QInstant => False end
+                                                           (* only the documented refusal of range queries *)
+  | QUser => True                                          (* a user-facing error *)
+  | QValue t' => t' = expected k t                         (* a value of the checked type *)
+  end.
+
+Lemma preprocess_wtp : forall e, check e = true -> info_plain e = true ->
+  exists pe, preprocess e = Some pe /\ wtp pe = true /\ type_of pe = type_of e.
+Proof.
+  intros e Hc Hi. unfold preprocess. rewrite (check_no_stepinv _ Hc).
+  destruct (wrap_good e false (pre_ok e Hc Hi false)) as (Hw & Ht & _). cbv zeta in *. eauto.
+Qed.
+
+Lemma type_soundness : forall e t, check_ast e = TyOk t -> info_plain e = true ->
+  forall w k, match k with QRange n => (1 <= n)%nat | QInstant => True end ->
+  sound_query w k e t.
+Proof.
+  intros e t Hca Hi w k Hk. unfold check_ast in Hca. destruct (check e) eqn:Hc; [|discriminate].
+  inversion Hca; subst t; clear Hca.
+  destruct (preprocess_wtp e Hc Hi) as (pe & Hp & Hw & Ht).
+  unfold sound_query, run_query. rewrite Hc, Hp. simpl negb. cbv iota.
+  destruct k as [|n].
+  - (* instant query *)
+    assert (Hs : sound 1 (type_of pe) (eval w 1 pe)).
+    { apply eval_sound; auto. split; [discriminate|lia]. }
+    rewrite Ht in *.
+    destruct (eval w 1 pe) as [v| |ft]; simpl in Hs; [|exact I|contradiction].
+    destruct v; simpl.
+    + destruct (type_of e); simpl in *; try discriminate; auto.
+      apply andb_prop in Hs. destruct Hs as [Hl Hk']. destruct l as [|x [|]]; try discriminate.
+      simpl in Hk'. destruct x as [|[] [|]]; try discriminate. reflexivity.
+    + destruct (type_of e); simpl in *; try discriminate; auto.
+    + destruct (type_of e); simpl in *; try discriminate; auto.
+  - (* range query *)
+    destruct (is_sv (type_of e)) eqn:Hsv; simpl negb; cbv iota; [|reflexivity].
+    assert (Hs : sound n (type_of pe) (eval w n pe)).
+    { apply eval_sound; auto. apply ctx_ok_sv. rewrite Ht. exact Hsv. }
+    rewrite Ht in *.
+    destruct (eval w n pe) as [v| |ft]; simpl in Hs; [|exact I|contradiction].
+    destruct v; simpl; auto.
+    destruct (type_of e); simpl in *; discriminate.
+Qed.
+
+Lemma untyped_rejected : forall e, check_ast e = TyErr -> forall w k, run_query w k e = QRejected.
+Proof.
+  intros e H w k. unfold check_ast in H. unfold run_query. destruct (check e); [discriminate|reflexivity].
+Qed.
+
+(* the unrestricted statement is false of the faithful model: info(foo, {version="v1"} @ 100) *)
+Definition info_witness : expr :=
+  ECall 1 "info" [EVec 2 (mkVS true false true false); EVec 3 (mkVS false false true true)].
+
+Lemma type_soundness_refuted :
+  exists e t w, check_ast e = TyOk t /\
+    run_query w QInstant e = QInternal FAssertNode /\ run_query w (QRange 3) e = QInternal FAssertNode.
+Proof. exists info_witness, TVector, canon_world. vm_compute. auto. Qed.
+
+(* non-vacuity: well-typed queries satisfying the side condition, evaluating to values *)
+(* topk(scalar(label_replace(foo, ("a"), "b", "c", "d")), foo)  — the repaired finding *)
+Definition ex_topk : expr :=
+  EAgg 1 AParam
+    (Some (ECall 2 "scalar" [ECall 3 "label_replace" [EVec 4 (mkVS true false true false); EParen EStr; EStr; EStr; EStr]]))
+    (EVec 5 (mkVS true false true false)).
+(* rate((foo[1m] @ 100)) + on(job) clamp(bar, 0, scalar(foo)) *)
+Definition ex_rate : expr :=
+  EBin 1 OArith false (mkVM true false false false)
+    (ECall 2 "rate" [EParen (EMat 3 (mkVS true false true true))])
+    (ECall 4 "clamp" [EVec 5 (mkVS true false true false); ENum; ECall 6 "scalar" [EVec 7 (mkVS true false true false)]]).
+
+Lemma ex_topk_ok :
+  check_ast ex_topk = TyOk TVector /\ info_plain ex_topk = true /\
+  run_query canon_world QInstant ex_topk = QValue TVector /\ run_query canon_world (QRange 3) ex_topk = QValue TMatrix.
+Proof. vm_compute. auto. Qed.
+
+Lemma ex_rate_ok :
+  check_ast ex_rate = TyOk TVector /\ info_plain ex_rate = true /\
+  run_query canon_world QInstant ex_rate = QValue TVector /\ run_query canon_world (QRange 3) ex_rate = QValue TMatrix.
+Proof. vm_compute. auto. Qed.
+
+Lemma ex_illtyped : check_ast (EUn 1 EStr) = TyErr /\ check_ast (ECall 1 "rate" [EVec 2 (mkVS true false true false)]) = TyErr.
+Proof. vm_compute. auto. Qed.
